@@ -23,6 +23,7 @@ VERUS = shutil.which("verus") or "/opt/veriftools/verus/verus"
 
 KINDS = [
     ("postcondition not satisfied", "post"),
+    ("post-condition of closure", "post"),
     ("precondition not satisfied", "pre"),
     ("precondition not met", "pre"),
     ("possible arithmetic underflow/overflow", "overflow"),
@@ -211,6 +212,37 @@ def run_unit(unit_name, tier="quick", repo=None, workdir=None, rlimit_factor=1, 
            "trusted": [], "vacuity_checked": 0, "cmd": "", "sources": []}
     t0 = time.time()
     tpath = _tpath or os.path.join(ROOT, "contracts", unit_name + ".vrs")
+    gen_tmp = None
+    gen = os.path.join(ROOT, "contracts", "gen_%s.py" % unit_name)
+    if _tpath is None and os.path.exists(gen):
+        # a unit with a template GENERATOR (contracts/gen_<unit>.py): the template (which items, which loop payloads) is derived
+        # from the tree under test on every run, so a new generated function cannot be missed; the function texts themselves
+        # are copied by the extractor as always. A construct the generator does not know makes the unit undecided.
+        gdir = os.path.join(ROOT, "contracts", ".gen%d_%s" % (os.getpid(), unit_name))
+        os.makedirs(gdir, exist_ok=True)
+        gp = subprocess.run([sys.executable, gen, "--repo", repo, "--out-dir", gdir, "--name", unit_name],
+                            capture_output=True, text=True)
+        cand = os.path.join(gdir, unit_name + ".vrs")
+        if gp.returncode != 0 or not os.path.exists(cand):
+            shutil.rmtree(gdir, ignore_errors=True)
+            res["status"] = "undecided"
+            res["undecided"].append("template generator %s failed on this tree: %s" % (os.path.basename(gen), (gp.stderr or gp.stdout)[-300:]))
+            return res
+        gen_tmp = os.path.join(ROOT, "contracts", ".gen%d_%s.vrs" % (os.getpid(), unit_name))
+        shutil.move(cand, gen_tmp)
+        shutil.rmtree(gdir, ignore_errors=True)
+        tpath = gen_tmp
+    try:
+        return _run_unit_inner(unit_name, tier, repo, workdir, rlimit_factor, tpath, _round, res, t0)
+    finally:
+        if gen_tmp:
+            try:
+                os.remove(gen_tmp)
+            except OSError:
+                pass
+
+
+def _run_unit_inner(unit_name, tier, repo, workdir, rlimit_factor, tpath, _round, res, t0):
     try:
         u = extract.process(tpath, repo, vacuity=False)
         uv = extract.process(tpath, repo, vacuity=True)
